@@ -260,7 +260,7 @@ def convert_slots_to_new(slots, log=None):
         cores = slot['cores']
         if cores:
             if isinstance(cores[0], RO):
-                pass
+                cores = list(cores)  # do not share the list with the input
             elif isinstance(cores[0], int):
                 cores = [RO(index=i, occupation=1.0)
                          for i in slot['cores']]
@@ -278,7 +278,7 @@ def convert_slots_to_new(slots, log=None):
         gpus = slot['gpus']
         if gpus:
             if isinstance(gpus[0], RO):
-                pass
+                gpus = list(gpus)  # do not share the list with the input
             elif isinstance(gpus[0], int):
                 gpus  = [RO(index=i, occupation=1.0)
                          for i in slot['gpus']]
